@@ -166,6 +166,9 @@ func doRangeCheckAllCol(segMicroIndex *metadata.SegmentMicroIndex, blockToCheck 
 	for cname, cmi := range allCMIs {
 		var matchedBlockRange bool
 		if cmi.CmiType != sutils.CMI_RANGE_INDEX[0] {
+			// numbers stored as text are compared by value and have no range
+			timeFilteredBlocks[blockToCheck][cname] = true
+			matchedAny = true
 			continue
 		}
 		matchedBlockRange = metautils.CheckRangeIndex(rangeFilter, cmi.Ranges, rangeOp, qid)
@@ -197,10 +200,10 @@ func doRangeCheckForCol(segMicroIndex *metadata.SegmentMicroIndex, blockToCheck 
 			continue
 		}
 		if colCMI.CmiType != sutils.CMI_RANGE_INDEX[0] {
-			if rangeOp == sutils.NotEquals {
-				matchedBlockRange = true
-				timeFilteredBlocks[blockToCheck][colName] = true
-			}
+			// A text column may hold numbers as text, they are compared by value
+			// and there is no range for them: the block cannot be skipped.
+			matchedBlockRange = true
+			timeFilteredBlocks[blockToCheck][colName] = true
 			continue
 		}
 		matchedBlockRange = metautils.CheckRangeIndex(rangeFilter, colCMI.Ranges, rangeOp, qid)
